@@ -686,19 +686,34 @@ impl Check for C13 {
             // the first experiments are FIXED (the same under every seed): totals that are a large, non-power-of-two
             // fraction of the 64-bit (dynamic lists: small weights are scaled by 2^60 when built) resp. 32-bit range,
             // where a biased reduction of a random word is visible
-            let fixed: [(Api, Shape, Vec<u32>); 6] = [
-                (Api::Dyn, Shape::Leaf(0), vec![1, 2]),
-                (Api::Dyn, Shape::Leaf(0), vec![5, 5, 5]),
-                (Api::Dyn, Shape::Leaf(0), vec![2, 1, 0, 0, 3]),
-                (Api::Tree, left_chain(2), vec![1 << 30, 1 << 31]),
-                (Api::Chain, Shape::Leaf(0), vec![1 << 31, 1 << 30, 1 << 29]),
-                (Api::Tree, right_chain(3), vec![3 << 29, 0, 5 << 28]),
+            let fixed: [(Api, Shape, Vec<u32>, Option<usize>); 10] = [
+                (Api::Dyn, Shape::Leaf(0), vec![1, 2], None),
+                (Api::Dyn, Shape::Leaf(0), vec![5, 5, 5], Some(2)),
+                (Api::Dyn, Shape::Leaf(0), vec![2, 1, 0, 0, 3], None),
+                (Api::Tree, left_chain(2), vec![1 << 30, 1 << 31], None),
+                (Api::Chain, Shape::Leaf(0), vec![1 << 31, 1 << 30, 1 << 29], None),
+                (Api::Tree, right_chain(3), vec![3 << 29, 0, 5 << 28], None),
+                // long dynamic lists that are used while they are being built (a sampling structure that is kept
+                // between calls and only exists for longer lists must follow the list)
+                (Api::Dyn, Shape::Leaf(0), vec![1, 2, 3, 1, 2, 3, 1, 2, 3, 9], Some(9)),
+                (Api::Dyn, Shape::Leaf(0), vec![0, 0, 0, 0, 0, 0, 0, 0, 0, 0, 0, 0, 4, 1], Some(12)),
+                (Api::Dyn, Shape::Leaf(0), (0..40).map(|i| 1 + i % 3).collect(), Some(33)),
+                (Api::Dyn, Shape::Leaf(0), (0..300).map(|i| if i < 290 { 1 } else { 100 }).collect(), Some(290)),
             ];
-            let (api, shape, weights) = match fixed.get(run as usize) {
+            let (api, shape, weights, warm_fixed) = match fixed.get(run as usize) {
                 Some(f) => f.clone(),
-                None => gen_case(g, true),
+                None => {
+                    let (a, s, w) = gen_case(g, true);
+                    (a, s, w, None)
+                }
             };
-            let warm_after = if api == Api::Dyn && weights.len() >= 2 && run % 2 == 1 { Some(g.urange(1, weights.len() - 1)) } else { None };
+            let warm_after = if run < 10 {
+                warm_fixed
+            } else if api == Api::Dyn && weights.len() >= 2 && run % 2 == 1 {
+                Some(g.urange(1, weights.len() - 1))
+            } else {
+                None
+            };
             return Sc::Dist {
                 api,
                 shape,
